@@ -87,6 +87,18 @@ case $ID in
     (cd SEEDED/demo_crate && RUSTFLAGS="--cfg arc_swap_demo_hook" MIRIFLAGS="-Zmiri-disable-weak-memory-emulation" T cargo +nightly miri run --offline --bin demo2); without=$?
     git apply $S/patch.diff
     (cd SEEDED/demo_crate && RUSTFLAGS="--cfg arc_swap_demo_hook" MIRIFLAGS="-Zmiri-disable-weak-memory-emulation" T cargo +nightly miri run --offline --bin demo2); with=$? ;;
+  C15-3)
+    cp $S/demo.rs tests/seed_demo.rs; T cargo test --offline --features weak --test seed_demo; without=$?
+    git apply $S/patch.diff; T cargo test --offline --features weak --test seed_demo; with=$? ;;
+  C15-4)
+    cp $S/demo.rs src/seeded_demo.rs; git apply $S/hooks.diff; T cargo test --offline --lib seeded_demo; without=$?
+    git apply $S/patch.diff; T cargo test --offline --lib seeded_demo; with=$? ;;
+  C18-3)
+    git apply $S/demo_hooks.diff; cp $S/demo.rs src/c18_demo.rs; T cargo test --offline --lib c18_change1; without=$?
+    git apply $S/patch.diff; T cargo test --offline --lib c18_change1; with=$? ;;
+  C18-4)
+    git apply $S/demo_hooks.diff; cp $S/demo.rs src/c18_demo.rs; T cargo test --offline --lib c18_change2; without=$?
+    clean; git apply $S/patch.diff && git apply $S/demo_hooks.diff; cp $S/demo.rs src/c18_demo.rs; T cargo test --offline --lib c18_change2; with=$? ;;
   *)
     # generic: integration test, no hooks
     cp $S/demo.rs tests/seed_demo.rs; T cargo test --offline --test seed_demo; without=$?
